@@ -24,6 +24,7 @@
 -/
 import CxVerif.Extracted.GlueMd
 import CxVerif.Proofs.GlueMd
+import CxVerif.Proofs.GlueSha2Drv
 namespace Cx.Props.C01.GlueTieMd
 open Cx Cx.Impl Cx.Impl.Sha2 Cx.Proofs.GlueMd
 
@@ -272,9 +273,13 @@ theorem eng256_new_src_eq_model (h : Spec.Sha2.W8 UInt32) :
     Extracted.GlueMd.Eng256.Engine.new_src h = Eng256.Engine.new h := rfl
 theorem eng256_reset_src_eq_model (self : Eng256.Engine) (h : Spec.Sha2.W8 UInt32) :
     Extracted.GlueMd.Eng256.Engine.reset_src self h = self.reset h := rfl
-/-- `blocks`: the `assert_eq!(len % BLOCK_LEN_BYTES, 0)` (constant re-derived from the source) + `digest_block` — rfl -/
+/-- `blocks`: the `assert_eq!(len % BLOCK_LEN_BYTES, 0)` (constant re-derived from the source) + `digest_block` = the GENERATED
+    dispatcher `impl256::digest_block` (baseline cfg set, Extracted/GlueSha2Drv.lean), which is the model's `Impl256.digest_block`
+    by Proofs/GlueSha2Drv.lean (`dispatch256_baseline_eq_model`: generated dispatcher -> generated `while` driver -> hand model) -/
 theorem eng256_blocks_src_eq_model (self : Eng256.Engine) (block : Bytes) :
-    Extracted.GlueMd.Eng256.Engine.blocks_src self block = self.blocks block := rfl
+    Extracted.GlueMd.Eng256.Engine.blocks_src self block = self.blocks block := by
+  unfold Extracted.GlueMd.Eng256.Engine.blocks_src Eng256.Engine.blocks
+  rw [Cx.Proofs.GlueSha2Drv.dispatch256_baseline_eq_model]; rfl
 
 theorem w8_slice {α : Type} (h : Spec.Sha2.W8 α) (n : Nat) (hn : n ≤ 8) :
     Glue.slice h.toList 0 n = some (h.toList.take n) := by
@@ -294,7 +299,8 @@ theorem eng256_output_256bits_at_src_eq_model (self : Eng256.Engine) (out : Byte
 
 /-! ### sha2/mod.rs: Engine256 -/
 
-theorem blocks256_fun : (fun (s : Eng256.Engine) (b : Bytes) => Extracted.GlueMd.Eng256.Engine.blocks_src s b) = Eng256.Engine.blocks := rfl
+theorem blocks256_fun : (fun (s : Eng256.Engine) (b : Bytes) => Extracted.GlueMd.Eng256.Engine.blocks_src s b) = Eng256.Engine.blocks := by
+  funext s b; exact eng256_blocks_src_eq_model s b
 
 theorem engine256_new_src_eq_model (h : Spec.Sha2.W8 UInt32) :
     Extracted.GlueMd.Engine256.new_src h = Engine256.new h := rfl
@@ -324,7 +330,9 @@ theorem eng512_new_src_eq_model (h : Spec.Sha2.W8 UInt64) :
 theorem eng512_reset_src_eq_model (self : Eng512.Engine) (h : Spec.Sha2.W8 UInt64) :
     Extracted.GlueMd.Eng512.Engine.reset_src self h = self.reset h := rfl
 theorem eng512_blocks_src_eq_model (self : Eng512.Engine) (block : Bytes) :
-    Extracted.GlueMd.Eng512.Engine.blocks_src self block = self.blocks block := rfl
+    Extracted.GlueMd.Eng512.Engine.blocks_src self block = self.blocks block := by
+  unfold Extracted.GlueMd.Eng512.Engine.blocks_src Eng512.Engine.blocks
+  rw [Cx.Proofs.GlueSha2Drv.dispatch512_baseline_eq_model]; rfl
 
 /-- `output_224bits_at` of the 64-bit engine: three words + the high half of `h[3]` (`>> 32`, `as u32`) — proved -/
 theorem eng512_output_224bits_at_src_eq_model (self : Eng512.Engine) (out : Bytes) :
@@ -347,7 +355,8 @@ theorem eng512_output_512bits_at_src_eq_model (self : Eng512.Engine) (out : Byte
 
 /-! ### sha2/mod.rs: Engine512 -/
 
-theorem blocks512_fun : (fun (s : Eng512.Engine) (b : Bytes) => Extracted.GlueMd.Eng512.Engine.blocks_src s b) = Eng512.Engine.blocks := rfl
+theorem blocks512_fun : (fun (s : Eng512.Engine) (b : Bytes) => Extracted.GlueMd.Eng512.Engine.blocks_src s b) = Eng512.Engine.blocks := by
+  funext s b; exact eng512_blocks_src_eq_model s b
 
 theorem engine512_new_src_eq_model (h : Spec.Sha2.W8 UInt64) :
     Extracted.GlueMd.Engine512.new_src h = Engine512.new h := rfl
